@@ -84,8 +84,15 @@ func execRec(args []string) string {
 	orig := append([]byte{}, line...)
 	rec := &hostsfile.Record{}
 	err := rec.UnmarshalText(line)
+	inputModified := string(orig) != string(line)
+	// encoding.TextUnmarshaler: the text must be copied if it is retained.  The caller may
+	// reuse its buffer (hostsfile.Parse does, through bufio.Scanner): overwrite it before
+	// the record is looked at, so that names aliasing the buffer show up.
+	for i := range line {
+		line[i] = '#'
+	}
 	out := showRecord(rec) + " err=" + classifyRecErr(err)
-	if string(orig) != string(line) {
+	if inputModified {
 		out += " INPUT-MODIFIED"
 	}
 	if err == nil {
